@@ -129,6 +129,12 @@ def cases() -> List[Dict[str, Any]]:
         "pkg/sub.py": "from . import util\nclass X:\n    pass\n",
         "pkg/util.py": "def helper(): pass\n",
     }, ["other.py", "pkg"], cyclic=True))
+    # a base named through an ALIAS CHAIN (a second name in its module; an import handed on by another module) whose target a
+    # sibling re-exports: two alias hops once the class has moved (known finding alias-chain-then-move)
+    out.append(hw("alias-then-move", {"a.py": "class C:\n    'c'\nK = C\n", "b.py": "from a import C\n__all__ = ['C']\n",
+                                      "d.py": "from a import K\nclass D(K):\n    'd'\n"}, ["a.py", "b.py", "d.py"]))
+    out.append(hw("from-import-through-a-module-then-move", {"a.py": "class C:\n    'c'\n", "mid.py": "from a import C\n", "b.py": "from mid import C\n__all__ = ['C']\n",
+                                                             "d.py": "from mid import C\nclass D(C):\n    'd'\n"}, ["a.py", "mid.py", "b.py", "d.py"]))
     # a star import through a module that only FORWARDS names (binds them by imports, one under a second name), while a sibling
     # re-exports the classes: the bases of the user's classes, and whether one is an exception, in every order of the four roots
     out.append(hw("star-import-through-a-forwarding-module", {
